@@ -28,7 +28,7 @@ func init() {
 				"profile, device and their nested settings types is read by the cache encoder and written by the decoder. R7: no " +
 				"encoder loop appends a view of a buffer that the next iteration overwrites.",
 			NotCovered: "that the maps equal a reference model after arbitrary synchronisation sequences; protobuf wire compatibility.",
-			Rules: map[string]string{"C14-R13": "profile codecs: early default returns only for nil / disabled input; nil sub-messages only for nil input (shared class rules)", "C14-R12": "the periodic refresh worker that drives the profile sync (shared rule, see C13-R11)", "C14-R11": "weekly-schedule codecs: all seven weekdays converted, each from/to the field of its own day (constant-index stores or a full loop over a weekday-ordered list)", "C14-R1": "maps and generation only under mapsMu", "C14-R2": "clean-ups re-validated by generation; inserts bump it",
+			Rules: map[string]string{"C14-R14": "profile decoders return a usable value, never a nil interface, on error-free paths (expected count zero; F16 was the one instance)", "C14-R13": "profile codecs: early default returns only for nil / disabled input; nil sub-messages only for nil input (shared class rules)", "C14-R12": "the periodic refresh worker that drives the profile sync (shared rule, see C13-R11)", "C14-R11": "weekly-schedule codecs: all seven weekdays converted, each from/to the field of its own day (constant-index stores or a full loop over a weekday-ordered list)", "C14-R1": "maps and generation only under mapsMu", "C14-R2": "clean-ups re-validated by generation; inserts bump it",
 				"C14-R3": "full sync clears all maps", "C14-R4": "lookup re-check decision trees", "C14-R5": "atomic cache write, version check",
 				"C14-R6": "codec field coverage", "C14-R7": "no loop-carried buffer aliasing in the encoder",
 				"C14-R8": "synchronisation protocol tables: Refresh (apply exactly what was fetched, advance the sync point, store the file cache on a full sync), fetchProfiles (a full sync asks from the zero time), needsFullSync, loadFileCache"},
@@ -596,6 +596,9 @@ func c14Cache(c *an.Ctx) {
 	sharedFileMutators(c, "C14-R5", "profiledb")
 	c14CodecNames(c, "C14-R6", nil, 60)
 	c.Floor("C14-R11", 9)
+	// ---- R14: the decoders never hand out a nil behaviour object (authenticator, limiter, access profile, blocking mode)
+	c.Inf("C14-R14", "nil interface results", token.NoPos, "%d error-free nil returns of interface-typed converter results found in the profile codecs",
+		sharedNoNilInterfaceResult(c, "C14-R14", nil, "backendpb.", "profiledb/internal/filecachepb."))
 	// ---- R13: a setting that is present is never replaced by a default because of what it contains
 	if n := sharedCodecGuards(c, "C14-R13", nil, "backendpb.", "profiledb/internal/filecachepb."); n < 5 {
 		c.Und("C14-R13", "early returns of the profile codecs", token.NoPos, "only %d early returns found", n)
